@@ -18,7 +18,7 @@ import (
 var (
 	seed       uint64 // 0 = jitter off
 	maxMicros  uint64 = 300
-	slowIdx    = -1 // record index whose worker is held back for slowMicros at every hook (-1 = none)
+	slowIdx           = -1 // record index whose worker is held back for slowMicros at every hook (-1 = none)
 	slowMicros uint64
 	inversions int64
 	calls      int64
